@@ -287,10 +287,9 @@ def _k_synthetic(c) -> CaseInfo:
     spec = c["spec"]
     if not _valid_spec(spec):
         raise InvalidCase
-    try:
-        z = build_synthetic(spec)
-    except (ValueError, RuntimeError):
-        return CaseInfo(False, "synthetic:rejected-by-constructor")
+    # every spec inside the constructive domain is a well-formed zone: its construction (which already evaluates the
+    # tail rules around the tail start) must succeed - an exception here is reported like any other
+    z = build_synthetic(spec)
 
     class _C:
         f = None
